@@ -32,7 +32,7 @@ ASSUMPTIONS = ['Verilog-2005 front end in mc/vlog is the judge of legality (its 
                'distinct port names within one Logic and distinct child names are the user\'s responsibility (py4hw enforces the latter)',
                'top-level wires poked by the harness are external drivers',
                'generation that raises is a refusal (counted), not a violation']
-BOUNDS = {'quick': 'catalogue at quick grids, naming grid over 6 names (4320 wrappers + 120 top-level namings), hist H = 2 (365 histories)',
+BOUNDS = {'quick': 'catalogue at quick grids, naming grid over 6 names (4320 wrappers + 120 top-level namings), every reserved word as an input and as an in/out port name, 6 clock-driver and 2 Interface variants, hist H = 2 (365 histories)',
           'thorough': 'catalogue at thorough grids, naming grid over 10 names (72000 wrappers + 720 top-level namings), hist H = 3 (2925 histories)'}
 
 NAMES_T = ['a', 'w_a', 'i_a', 'reg', 'wire', 'output', 'signed', 'clk', 'r', 'q']
